@@ -34,7 +34,7 @@ CLAIMS["C08"] = dict(
           "(index, slice, nil, division, make), the retention counters stay within the documented maximum (representation invariant "
           "re-established at exit), a call returns a frame or an error and a returned frame is within the maximum, and the frame "
           "condition that Decode writes no byte of any array that existed before the call (so frames already returned are never altered). "
-          "Under full contracts: H264, H265, fragmented, KLV, VP8 decoders; AV1 decoder with the link between its size counter and the bytes actually retained (which exposed a defect, repaired, see known_findings.json); under no-panic and counter-bound contracts: MPEG-4 audio, MPEG-1 audio, MPEG-1 video, AC-3, VP9, M-JPEG "
+          "Under full contracts: H264, H265, fragmented, KLV, VP8 decoders; AV1, MPEG-4 audio, MPEG-1 audio, MPEG-1 video and AC-3 decoders with the link between the size counter and the bytes actually retained (which exposed a defect in the AV1 decoder, repaired, see known_findings.json); under no-panic and counter-bound contracts: VP9, M-JPEG "
           "decoders; swept for no-panic with inferred invariants: LPCM, simple audio, MPEG-TS decoders, the PTSEqualsDTS classifier of all 22 formats (it runs on every incoming "
           "packet) and the tolerant RTCP unmarshaler."),
     note=TRUST + "Packets are assumed to carry at most 65535 payload bytes (transport limit). Not decided: readAUHeaders' index into its own result, makeQuantizationTables' index into the package-level quantizer tables, pion and mediacommon parsers (assumed contracts).",
